@@ -361,6 +361,18 @@ def scenarios():
         ("union member whose variant type derives the name of a sibling inline member",
          {"Basket": {"type": "object", "properties": {"item": {"type": "object", "properties": {"sku": S}}}}},
          {"Basket": {"type": "object", "properties": {"item": {"type": "object", "properties": {"sku": S}}, "items": {"type": "array", "items": {"type": "object", "properties": {"qty": {"type": "integer"}}}}}}}, ("field", "Basket", "item")),
+        ("inline allOf over two references vs unrelated named oneOf over the same references",
+         {"EmailC": {"type": "object", "properties": {"email": S}}, "PhoneC": {"type": "object", "properties": {"phone": S}},
+          "Profile": {"type": "object", "properties": {"reachable_by": {"allOf": [ref("EmailC"), ref("PhoneC")]}}}},
+         {"Contact": {"oneOf": [ref("EmailC"), ref("PhoneC")]}}, ("field", "Profile", "reachable_by")),
+        ("inline enums named by the same member name in four components, two value sets",
+         {"Ticket": {"type": "object", "properties": {"status": {"type": "string", "enum": ["todo", "done"]}}}, "Task": {"type": "object", "properties": {"status": {"type": "string", "enum": ["todo", "done"]}}}},
+         {"Order": {"type": "object", "properties": {"status": {"type": "string", "enum": ["open", "paid"]}}}, "Invoice": {"type": "object", "properties": {"status": {"type": "string", "enum": ["open", "paid"]}}}},
+         ("field", "Ticket", "status")),
+        ("inline enums named by the same member name in four components, the other value set",
+         {"Order": {"type": "object", "properties": {"status": {"type": "string", "enum": ["open", "paid"]}}}, "Invoice": {"type": "object", "properties": {"status": {"type": "string", "enum": ["open", "paid"]}}}},
+         {"Ticket": {"type": "object", "properties": {"status": {"type": "string", "enum": ["todo", "done"]}}}, "Task": {"type": "object", "properties": {"status": {"type": "string", "enum": ["todo", "done"]}}}},
+         ("field", "Order", "status")),
         ("inline enum vs named enum with a superset of values",
          {"HolderE": {"type": "object", "properties": {"v": {"type": "string", "enum": ["a", "b"]}}}}, {"Wide": {"type": "string", "enum": ["a", "b", "c"]}}, ("field", "HolderE", "v")),
     ]
